@@ -19,5 +19,11 @@ CHECKS["C08"] = (
     "Theorems: the index returned for u is the one whose cumulative interval (c_{i-1}, c_i] contains u*T (so P(i) = p_i m_i / T, never a masked, zero or unfilled entry); new transitions get the current maximum; update changes exactly the last sampled batch; max_priority dominates over every history and is exact after reset; IS weights in (0,1], max 1, antitone; LAP/PER priorities positive and monotone. The extracted model is compared with LAP, PrioritizedReplayBuffer, SubtrajectoryReplayBufferPER and the multi-task wrapper on every run.",
     "Trusts: Coq kernel; real-number axioms of the standard library for the weight/priority theorems (ClassicalDedekindReals.sig_forall_dec, sig_not_dec, functional_extensionality_dep, Classical_Prop.classic as reported by Print Assumptions); the Q theorems are axiom-free; extraction, OCaml glue (libm pow in the float instance), Python harness; np.cumsum/searchsorted as executed.",
 )
+CHECKS["C04"] = (
+    "DESIGN.md §2 C04",
+    "Coq proof (invariant over the append-only write history: ring contents, episode counter and mask discipline, by induction over all histories for every capacity N > H >= 1) + model/implementation correspondence with every enabled start sampled after every add",
+    "Theorem C04_window_valid: for every history, every enabled start and every sampling horizon h <= H the returned window is, up to and including its first terminated step, a run of consecutive real writes W[c..c+k] (no synthetic successor row, none truncated, all live, read from the slots that hold them); no window reads an unwritten slot; the reduced view is the stated projection. The extracted model is compared with SubtrajectoryReplayBuffer(PER) after every add on every run; the spec is evaluated on (episode,t) tags in the returned rows.",
+    "Trusts: Coq kernel, extraction, OCaml glue, Python harness and tag encoding; NumPy indexing as executed. Reading: guarantees hold up to the first terminated step (rows after it need only be written slots). No axioms.",
+)
 _PENDING = "check not built yet in this revision (planned: Coq model + correspondence, see DESIGN.md §2)"
 NOT_APPLICABLE = {f"C{i:02d}": _PENDING for i in range(1, 21) if f"C{i:02d}" not in CHECKS}
